@@ -56,6 +56,13 @@ def gen_instance(rng, tier, kind=None):
                 i, j = sorted(rng.sample(range(n), 2))
                 cs.append((order[j], order[i], rng.choice([0, 1, 2, 5])))   # a back edge: may close a contradictory cycle
     inst = {"kind": kind, "d": ds, "w": ws, "s": ss, "cs": cs}
+    if rng.random() < 0.2 and n >= 2:
+        # the SAME solver object is given new desired positions (setDesiredPositions) and solved again, once or twice: the incremental use
+        # the solver was written for.  What is judged is the last solve, against the last targets.
+        inst["resolve"] = [[d + rng.choice([-7, -3, 0, 0, 2.5, 11]) * rng.random() if rng.random() < 0.8 else rng.choice(ds) for d in ds]
+                           for _ in range(rng.choice([1, 1, 2]))]
+        if style == "int" and rng.random() < 0.5:
+            inst["resolve"] = [[float(round(v)) for v in ps] for ps in inst["resolve"]]
     if kind in ("dag", "chain", "ties") and rng.random() < 0.15:
         inst["presolve"] = [d + rng.choice([-7, -3, 0, 2.5, 11]) * rng.random() for d in ds]
     return inst
@@ -93,13 +100,27 @@ def build(inst, exact):
     return vpsc, vs, cs
 
 
+def solve_all(solver, inst, exact):
+    """solve(); then for every list of new targets: setDesiredPositions(ps); solve() on the same solver.  Returns the last returned cost."""
+    cost = solver.solve()
+    for ps in inst.get("resolve", []):
+        solver.setDesiredPositions([Fraction(p) if exact else p for p in ps])
+        cost = solver.solve()
+    return cost
+
+
+def final_inst(inst):
+    """the problem the last solve was asked to solve"""
+    return dict(inst, d=inst["resolve"][-1]) if inst.get("resolve") else inst
+
+
 def run_float(inst):
     vpsc, vs, cs = build(inst, False)
     solver = vpsc.Solver(vs, cs)
     signal.signal(signal.SIGALRM, _alarm)
     signal.alarm(5)
     try:
-        cost = solver.solve()
+        cost = solve_all(solver, inst, False)
     finally:
         signal.alarm(0)
     return [v.position() for v in vs], cost, [i for i, c in enumerate(cs) if c.unsatisfiable]
@@ -116,7 +137,7 @@ def run_exact_plain(inst):
         signal.signal(signal.SIGALRM, _alarm)
         signal.alarm(20)
         try:
-            cost = solver.solve()
+            cost = solve_all(solver, inst, True)
         finally:
             signal.alarm(0)
         return [v.position() for v in vs], cost, [i for i, c in enumerate(cs) if c.unsatisfiable]
@@ -125,6 +146,12 @@ def run_exact_plain(inst):
 
 
 def vpsc_line(inst, x, cost, unsat):
+    if inst.get("resolve"):
+        return "vpscr|%s|%s|%s|%s|%s|%s" % (
+            ";".join("%s:%s:%s" % (fr(d), fr(w), fr(s)) for d, w, s in zip(inst["d"], inst["w"], inst["s"])),
+            ";".join("%d:%d:%s" % (l, r, fr(g)) for l, r, g in inst["cs"]),
+            "&".join(",".join(fr(v) for v in ps) for ps in inst["resolve"]),
+            ",".join(fr(v) for v in x), fr(cost), ",".join(map(str, unsat)))
     return "vpsc|%s|%s|%s|%s|%s" % (
         ";".join("%s:%s:%s" % (fr(d), fr(w), fr(s)) for d, w, s in zip(inst["d"], inst["w"], inst["s"])),
         ";".join("%d:%d:%s" % (l, r, fr(g)) for l, r, g in inst["cs"]),
@@ -156,7 +183,7 @@ def run_exact_hint(inst):
         signal.signal(signal.SIGALRM, _alarm)
         signal.alarm(20)
         try:
-            cost0 = solver.solve()
+            cost0 = solve_all(solver, inst, True)
             before = [v.position() for v in vs]
             _plain["x"], _plain["cost"], _plain["unsat"] = before, cost0, [i for i, c in enumerate(cs) if c.unsatisfiable]
             extra = 0
@@ -205,7 +232,7 @@ def float_continued(inst):
         signal.signal(signal.SIGALRM, _alarm)
         signal.alarm(20)
         try:
-            solver.solve()
+            solve_all(solver, inst, False)
             solver.satisfy = orig_satisfy
             stationary = len(costs) >= 2 and abs(costs[-1] - costs[-2]) <= F1_COST_STEP
             passes = 0
@@ -270,7 +297,9 @@ def one_case(inst, rep):
             rep.count("exact-run-timeout")
         except ZeroDivisionError:
             rep.count("exact-run-zerodivision")
-    return qp_line(inst, x, cost, xs, lam, unsat), meta
+    if inst.get("resolve"):
+        rep.count("re-solved-%d-times" % len(inst["resolve"]))
+    return qp_line(final_inst(inst), x, cost, xs, lam, unsat), meta
 
 
 def body(tier, seed, rep, only_prop=False, scale=1):
